@@ -73,6 +73,22 @@ fn typed_info<T: SwiftMessageBody + serde::de::DeserializeOwned>(text: &str) -> 
     .map_err(|p| format!("panic:{p}"))
 }
 
+/// the error-collecting twin of the typed API: (JSON of the message, its MT text, number of collected errors)
+fn typed_collect_info<T: SwiftMessageBody>(text: &str) -> Result<(Value, String, usize), String> {
+    use swift_mt_message::errors::ParseResult;
+    match guarded(|| SwiftParser::new().parse_with_errors::<T>(text)) {
+        Err(p) => Err(format!("panic:{p}")),
+        Ok(Err(e)) => Err(format!("error:{}", serde_json::to_value(&e).map(|v| v.to_string()).unwrap_or_default())),
+        Ok(Ok(ParseResult::Failure(es))) => Err(format!("error:{}", es.iter().map(|e| serde_json::to_value(e).map(|v| v.to_string()).unwrap_or_default()).collect::<Vec<_>>().join(" "))),
+        Ok(Ok(ParseResult::Success(m))) => guarded(|| (serde_json::to_value(&m).unwrap_or(Value::Null), m.to_mt_message(), 0)).map_err(|p| format!("panic:{p}")),
+        Ok(Ok(ParseResult::PartialSuccess(m, es))) => guarded(|| (serde_json::to_value(&m).unwrap_or(Value::Null), m.to_mt_message(), es.len())).map_err(|p| format!("panic:{p}")),
+    }
+}
+
+pub fn typed_collect(mt: &str, text: &str) -> Result<(Value, String, usize), String> {
+    with_mt!(mt, T => typed_collect_info::<T>(text), else Err("unsupported-by-harness".into()))
+}
+
 pub fn typed(mt: &str, text: &str) -> Result<TypedInfo, String> {
     with_mt!(mt, T => typed_info::<T>(text), else Err("unsupported-by-harness".into()))
 }
